@@ -58,3 +58,8 @@ Inductive alignment := ADefault | ALeft | ACenter | ARight.
 Inductive repr := RDebug | RHexLower | RHexUpper | RBinary | ROctal | RExpLower | RExpUpper.
 (* the fields of StringFormatOptions, in the order render_format_options may emit them *)
 Inductive rfield := FFill | FAlign | FWidth | FPrecision | FRepr.
+
+(* koto_lexer::Position { line, column } with the derived (lexicographic) order *)
+Definition pos := (N * N)%type.
+Definition pos_lt (a b : pos) : bool := (fst a <? fst b) || ((fst a =? fst b) && (snd a <? snd b)).
+Definition pos_le (a b : pos) : bool := (fst a <? fst b) || ((fst a =? fst b) && (snd a <=? snd b)).
